@@ -63,7 +63,13 @@ def concat_pieces(a, ref, point):
     want_hi = ('bin', 'Sub', ('const', 'usize', N), ('len', ('addr', ('local', root), expect)))
     got = hi
     if got[0] == 'bin' and got[3][0] == 'len' and got[3][1][0] == 'addr':
-        got = ('bin', got[1], got[2], ('len', got[3][1][:3]))
+        lhs = got[2]
+        # `buf.len()` of the N-byte array is the constant N
+        if lhs[0] == 'len' and lhs[1][0] == 'addr' and lhs[1][1] == ('local', root) and not lhs[1][2]:
+            from ..tyutil import array_len
+            if array_len(a.body.local_ty(root)) == N:
+                lhs = ('const', 'usize', N)
+        got = ('bin', got[1], lhs, ('len', got[3][1][:3]))
     if got != want_hi:
         return None, 'length %s is not N - unused.len()' % pp(hi)[:120], None
     return pieces, helper, N
